@@ -20,10 +20,14 @@ theorem C02_model_meets_spec (e : Engines) (hwf : EnginesWF e) (c : Conf) (u : U
   unfold C02.specOK C02.check handle
   cases hres : reserved c q
   · rw [shortCircuit_none c q hres]
+    cases hpre0 : precededByOther e c q
+    case true => simp
+    cases hob : otherBlocks e c q
+    case true => simp
     cases hb : blockedByRules e c q
     · cases hs : serviceMayBlock e c q
       · simp only [Bool.or_self, Bool.false_eq_true, if_false]
-        obtain ⟨h1, h2, h3⟩ := handleMain_forward e hwf c u q hb hs
+        obtain ⟨h1, h2, h3⟩ := handleMain_forward e hwf c u q hpre0 hb hs hob
         cases happ : respFilterApplies e c q
         · obtain ⟨ql, hql, _, _⟩ := h1 happ
           simp [hql, Upstream.exchange, deliveredUnchanged]
@@ -65,7 +69,8 @@ upstream answer; the query is still forwarded exactly once, the record says
 "filtered" and keeps the original answer. -/
 theorem C02_position_independent (e : Engines) (hwf : EnginesWF e) (c : Conf) (u : Upstream) (q : Query)
     (pre : List RR) (rr : RR) (post : List RR)
-    (hdom : reserved c q = false) (hb : blockedByRules e c q = false) (hs : serviceMayBlock e c q = false)
+    (hdom : reserved c q = false) (hpre0 : precededByOther e c q = false)
+    (hb : blockedByRules e c q = false) (hs : serviceMayBlock e c q = false) (hob : otherBlocks e c q = false)
     (happ : respFilterApplies e c q = true)
     (hsplit : u.answer = pre ++ rr :: post)
     (hpre : ∀ x ∈ pre, offending e c x = false) (hoff : offending e c rr = true) :
@@ -77,7 +82,7 @@ theorem C02_position_independent (e : Engines) (hwf : EnginesWF e) (c : Conf) (u
   cases hfb : firstBlocked e c rr with
   | none => simp [hfb] at hoff
   | some ht =>
-    obtain ⟨r, hB, hr⟩ := (handleMain_forward e hwf c u q hb hs).2.2 happ pre rr post ht.1 ht.2 hsplit hpre hfb
+    obtain ⟨r, hB, hr⟩ := (handleMain_forward e hwf c u q hpre0 hb hs hob).2.2 happ pre rr post ht.1 ht.2 hsplit hpre hfb
     refine ⟨genDNSFilterMessage c q r, pre.map (stripC c) ++ stripC c rr :: post, ?_, ?_, ?_⟩
     · unfold handle; rw [shortCircuit_none c q hdom, hr]
     · exact List.any_eq_true.mpr ⟨_, firstBlocked_candidate e c rr ht.1 ht.2 hfb, respBlock_ok e hwf c q ht.1 ht.2 r hB⟩
@@ -87,7 +92,8 @@ theorem C02_position_independent (e : Engines) (hwf : EnginesWF e) (c : Conf) (u
 record is the first offending one: no record of the upstream answer is delivered. -/
 theorem C02_replacement_is_local (e : Engines) (hwf : EnginesWF e) (c : Conf) (u : Upstream) (q : Query)
     (pre : List RR) (rr : RR) (post : List RR)
-    (hdom : reserved c q = false) (hb : blockedByRules e c q = false) (hs : serviceMayBlock e c q = false)
+    (hdom : reserved c q = false) (hpre0 : precededByOther e c q = false)
+    (hb : blockedByRules e c q = false) (hs : serviceMayBlock e c q = false) (hob : otherBlocks e c q = false)
     (happ : respFilterApplies e c q = true)
     (hsplit : u.answer = pre ++ rr :: post)
     (hpre : ∀ x ∈ pre, offending e c x = false) (hoff : offending e c rr = true) :
@@ -97,7 +103,7 @@ theorem C02_replacement_is_local (e : Engines) (hwf : EnginesWF e) (c : Conf) (u
   cases hfb : firstBlocked e c rr with
   | none => simp [hfb] at hoff
   | some ht =>
-    obtain ⟨r, hB, hr⟩ := (handleMain_forward e hwf c u q hb hs).2.2 happ pre rr post ht.1 ht.2 hsplit hpre hfb
+    obtain ⟨r, hB, hr⟩ := (handleMain_forward e hwf c u q hpre0 hb hs hob).2.2 happ pre rr post ht.1 ht.2 hsplit hpre hfb
     exact ⟨r, _, by unfold handle; rw [shortCircuit_none c q hdom, hr], hB.1, hB.2.1⟩
 
 /-- **Allow override per record**: a record all of whose revealed names /
@@ -115,13 +121,14 @@ theorem C02_allow_override_per_record (e : Engines) (c : Conf) (rr : RR)
 /-- **Clean answers are delivered unchanged** (where the filter runs and AAAA
 is disabled, HTTPS records lose their IPv6 hints — the code edits them in place). -/
 theorem C02_clean_unchanged (e : Engines) (hwf : EnginesWF e) (c : Conf) (u : Upstream) (q : Query)
-    (hdom : reserved c q = false) (hb : blockedByRules e c q = false) (hs : serviceMayBlock e c q = false)
+    (hdom : reserved c q = false) (hpre0 : precededByOther e c q = false)
+    (hb : blockedByRules e c q = false) (hs : serviceMayBlock e c q = false) (hob : otherBlocks e c q = false)
     (happ : respFilterApplies e c q = true)
     (hclean : ∀ rr ∈ u.answer, offending e c rr = false) :
     ∃ ql, ql.isFiltered = false ∧ ql.origAnswer = none ∧
       handle e c u q =
         .done { u.exchange q with answer := if c.aaaaDisabled then u.answer.map stripRR else u.answer } [q] (some ql) := by
-  obtain ⟨ql, hql, hnf, hno⟩ := (handleMain_forward e hwf c u q hb hs).2.1 happ hclean
+  obtain ⟨ql, hql, hnf, hno⟩ := (handleMain_forward e hwf c u q hpre0 hb hs hob).2.1 happ hclean
   refine ⟨ql, hnf, hno, ?_⟩
   unfold handle; rw [shortCircuit_none c q hdom, hql]
   cases hd : c.aaaaDisabled
@@ -134,14 +141,32 @@ theorem C02_clean_unchanged (e : Engines) (hwf : EnginesWF e) (c : Conf) (u : Up
 client, or the queried name allow-listed ⇒ the upstream's message is delivered
 untouched (not even the IPv6-hint edit happens). -/
 theorem C02_not_applicable_passthrough (e : Engines) (hwf : EnginesWF e) (c : Conf) (u : Upstream) (q : Query)
-    (hdom : reserved c q = false) (hb : blockedByRules e c q = false) (hs : serviceMayBlock e c q = false)
+    (hdom : reserved c q = false) (hpre0 : precededByOther e c q = false)
+    (hb : blockedByRules e c q = false) (hs : serviceMayBlock e c q = false) (hob : otherBlocks e c q = false)
     (hna : protectionOn c = false ∨ filteringOn c = false ∨ allowedName e c (qhost q) q.qtype = true) :
     ∃ ql, ql.isFiltered = false ∧ ql.origAnswer = none ∧ handle e c u q = .done (u.exchange q) [q] (some ql) := by
   have happ : respFilterApplies e c q = false := by
     unfold respFilterApplies
     rcases hna with h | h | h <;> simp [h]
-  obtain ⟨ql, hql, hnf, hno⟩ := (handleMain_forward e hwf c u q hb hs).1 happ
+  obtain ⟨ql, hql, hnf, hno⟩ := (handleMain_forward e hwf c u q hpre0 hb hs hob).1 happ
   exact ⟨ql, hnf, hno, by unfold handle; rw [shortCircuit_none c q hdom, hql]⟩
+
+/-- **A rewritten query gets its own question back.**  When a legacy rewrite maps
+the name to a canonical name without addresses, the canonical name — and only
+it — is resolved upstream, and the client receives the upstream's rcode and
+records under the ORIGINAL question, preceded by `name CNAME canonical`.  No
+response filtering takes place (the property exempts rewritten queries): the
+statement holds whatever the upstream's records reveal. -/
+theorem C02_rewritten_restores_question (e : Engines) (c : Conf) (u : Upstream) (q : Query)
+    (hdom : reserved c q = false) (hf : filteringOn c = true) (hq : qhost q ≠ [])
+    (hrw : legacyRewritten e c (qhost q) q.qtype = true)
+    (hcn : rewriteCanon e c q ≠ []) (hips : rewriteIPs e c q = []) :
+    ∃ m ql, handle e c u q = .done m [{ name := fqdn (rewriteCanon e c q), qtype := q.qtype }] (some ql) ∧
+      m.qname = q.name ∧ m.qtype = q.qtype ∧ m.rcode = u.rcode ∧
+      m.answer = { name := q.name, ttl := c.ttl, data := .cname (fqdn (rewriteCanon e c q)) } :: u.answer ∧
+      ql.isFiltered = false ∧ ql.reason = .rewritten ∧ ql.origAnswer = none := by
+  rw [C01_rewrite_precedes_block e c u q hdom hf hq hrw, if_pos ⟨hcn, hips⟩]
+  exact ⟨_, _, rfl, rfl, rfl, rfl, rfl, rfl, rfl, rfl⟩
 
 /-- **Cache hits are filtered like fresh answers.**  With the dnsproxy cache in
 front of the upstream, every step — hit or miss, whatever the cache holds —
